@@ -30,6 +30,8 @@ pub enum Action {
     InsertChecksum(String, String),
     RemoveQualifier(String),
     ClearQualifiers,
+    /// overwrite an existing qualifier in place through `IndexMut` (nothing happens if it is absent)
+    IndexSet(String, String),
 }
 
 #[derive(Clone, Debug, Default, Serialize, Deserialize, PartialEq, Eq, Hash)]
@@ -134,6 +136,11 @@ pub fn apply_action(a: &Action, parts: &mut PurlParts) -> Result<(), ShapeError>
             let _ = parts.qualifiers.remove(k.as_str());
         },
         Action::ClearQualifiers => parts.qualifiers.clear(),
+        Action::IndexSet(k, v) => {
+            if parts.qualifiers.contains_key(k.as_str()) {
+                parts.qualifiers[k.as_str()] = SmallString::from(v.as_str());
+            }
+        },
     }
     Ok(())
 }
@@ -170,6 +177,8 @@ pub fn gaction() -> BoxedStrategy<Action> {
         3 => (select(&["checksum", "Checksum", "CHECKSUM"][..]), gck_text()).prop_map(|(k, v)| Action::InsertChecksum(k.to_string(), v)),
         1 => gkey_any().prop_map(Action::RemoveQualifier),
         1 => Just(Action::ClearQualifiers),
+        1 => (gkey_any(), garg()).prop_map(|(k, v)| Action::IndexSet(k, v)),
+        2 => (select(&["checksum", "Checksum"][..]), gck_text()).prop_map(|(k, v)| Action::IndexSet(k.to_string(), v)),
     ]
     .boxed()
 }
@@ -221,6 +230,13 @@ pub fn apply_model(spec: &ShapeSpec, mut m: PartsModel) -> HookExpect {
                 }
             },
             Action::ClearQualifiers => m.quals.clear(),
+            Action::IndexSet(k, v) => {
+                if is_valid_key(k) {
+                    if let Some(x) = m.quals.get_mut(&k.to_ascii_lowercase()) {
+                        *x = v.clone();
+                    }
+                }
+            },
         }
     }
     let mut reasons = Vec::new();
